@@ -89,6 +89,20 @@ type S struct {
 	F bool
 }
 
+// S2: the same field names as S at other positions (and one more in front): what a field name
+// means is a matter of the struct type it is used on
+type S2 struct {
+	Z int64
+	F bool
+	E map[string]int64
+	D []int64
+	C float64
+	B string
+	A int64
+}
+
+const struct2TypeSrc = "struct{Z int64, F bool, E map[string]int64, D []int64, C float64, B string, A int64}"
+
 const structTypeSrc = "struct{A int64, B string, C float64, D []int64, E map[string]int64, F bool}"
 
 var (
@@ -110,12 +124,13 @@ var kindType = map[string]reflect.Type{
 	"msi": reflect.TypeOf(map[string]int64(nil)),
 	"mis": reflect.TypeOf(map[int64]string(nil)),
 	"st":  reflect.TypeOf(S{}),
+	"st2": reflect.TypeOf(S2{}),
 }
 
 // typeSrc is the anko spelling of the type of a kind.
 var typeSrc = map[string]string{
 	"us": "[]interface", "ti": "[]int64", "ts": "[]string", "tf": "[]float64", "tii": "[][]int64",
-	"msi": "map[string]int64", "mis": "map[int64]string", "st": structTypeSrc,
+	"msi": "map[string]int64", "mis": "map[int64]string", "st": structTypeSrc, "st2": struct2TypeSrc,
 }
 
 func slotName(i int) string { return "v" + strconv.Itoa(i) }
@@ -362,6 +377,8 @@ func initSrc(kind string, in *Init) string {
 		return vals.StrLit(in.S)
 	case "st":
 		return "make(" + structTypeSrc + ")"
+	case "st2":
+		return "make(" + struct2TypeSrc + ")"
 	case "us":
 		if in.How == "make" {
 			return fmt.Sprintf("make([]interface, %d, %d)", in.Len, in.Cap)
@@ -401,6 +418,8 @@ func initValue(kind string, in *Init) (reflect.Value, cstat) {
 		out.SetString(in.S)
 	case "st":
 		out.Set(reflect.ValueOf(S{D: []int64{}, E: map[string]int64{}}))
+	case "st2":
+		out.Set(reflect.ValueOf(S2{D: []int64{}, E: map[string]int64{}}))
 	case "us", "ti", "ts", "tf", "tii":
 		if in.How == "make" {
 			out.Set(reflect.MakeSlice(t, in.Len, in.Cap))
